@@ -12,7 +12,7 @@ PREP = {"e2e.C01.roundtrip": "w.", "e2e.C07.corrupt": "w."}
 
 # ops whose implementation observation carries extra statistics after the first word (e.g. "same ok",
 # "same conferr"): only the first word is compared with the model's answer
-FIRST_WORD_FNS = {"c08.twin", "c08.known", "c15.versions", "c15.known", "c02.closure", "c02.known", "c19.origin"}
+FIRST_WORD_FNS = {"c08.twin", "c08.known", "c15.versions", "c15.known", "c02.closure", "c02.known", "c19.origin", "c09.doc", "c09.known"}
 
 TRUSTED_BASE = [
     "Lean 4.33.0 kernel (thorough tier: leanchecker re-check of the compiled property modules)",
@@ -53,7 +53,16 @@ def _c02_witness(kind):
     return f
 
 
+def _c09_witness(kind):
+    def f(stream, op, impl_out):
+        t = op.split("\t")
+        return t[0] == "c09.known" and len(t) > 1 and t[1] == kind
+    return f
+
+
 KNOWN_CLASSES = {
+    "c09_xml_error_position": _c09_witness("xml-error-position"),
+    "c09_xml_singleton_list_split": _c09_witness("xml-singleton-list-split"),
     "c02_incell_map_wellknown_value": _c02_witness("incell-map-wellknown-value"),
     "c02_later_element_column_missing": _c02_witness("later-element-column-missing"),
     "c02_keyed_list_struct_key": _c02_witness("keyed-list-struct-key"),
@@ -63,6 +72,19 @@ KNOWN_CLASSES = {
 }
 
 PROPS = {
+    "C09": {
+        "lean_modules": ["TableauVerif.Props.C09"],
+        "oracles": ["c09.doc", "c09.known"],
+        "streams": [
+            ("e2e.C09.documents", 360, 15000, 8),
+            ("corr.importer.xmlToNode", 6000, 200000),
+        ],
+        "assumptions": [
+            "modelled: the XML importer's data-document conversion (parseXMLNode, confgen branch): gathering of repeated child elements, attributes as scalar children, text-only elements; names used both for text-only and for structured occurrences under one parent are outside the model (`unmodelled`, counted as drift); the YAML and XML tokenisers (yaml.v3, go-xmldom) are trusted libraries",
+            "the document parser proper (confgen/document_parser.go, protogen/document_parser.go) is not modelled: faithfulness is decided by the independent walker of e2e.C09.documents, which looks fields up by their (tableau.field).name option and compares every stated scalar, list, map and struct, and checks that nothing else is populated (partial)",
+            "schema vocabulary exercised: scalars (9 kinds incl. a predefined enum), structs, scalar lists, in-cell lists, struct lists, scalar maps, struct maps (YAML), in-cell structs, optional fields at every level, nesting depth 3; YAML error positions of corrupted numeric scalars at any depth",
+        ],
+    },
     "C19": {
         "lean_modules": ["TableauVerif.Props.C19"],
         "oracles": ["c19.origin"],
